@@ -6,6 +6,8 @@ Header: `stack layers=<outermost,…,innermost> inner=strict|climit|buffer [read
 on which reconnect's `on_state_change` callback panics); `arrive … keep=1` + `release c`:
 the caller keeps its finished call future. The key of the keyed layers (coalesce, cache) is the tag modulo 1000. Boundary `b<j>` is the outer boundary of layer j (0 = the one the harness drives),
 `b<n>` the boundary of the inner service.
+`cf<j>=<knob>:<value>/…` configures layer j (knobs: see harness/src/mw_stack.rs and `lcfg_of` below); without it a layer has the
+configuration its name stands for.
 """
 import re
 from gen.util import kvs, tparse
@@ -384,8 +386,164 @@ def gen_reconnect_callbacks(rng):
     return {"header": header, "ops": ops}
 
 
+FB_STRATEGIES = ["value", "valuefn", "fromerr", "fromreq", "service", "exc", "exc"]
+FB_PREDICATES = ["never", "never", "e1", "e2", "e2", "all", "unset"]
+CONFIGURABLE = ["retry", "retry", "retry", "fallback", "fallback", "fallback", "hedge1", "hedge1", "hedge", "timelimiter",
+                "timelimiter_nocancel", "bulkhead", "cache", "circuit", "adaptive", "chaos", "chaos", "reconnect", "reconnect", "executor",
+                "ratelimiter", "coalesce"]
+
+
+def _layer_knobs(rng, l, demand, nreq, all_ok):
+    """A configuration of layer `l` at a boundary value of its knobs that still leaves the layer out of the way of suitable
+    requests (`demand`: upper bound on the calls the case can make at any boundary; `all_ok`: no scripted call fails):
+    retry without retries / with few, fallback with every strategy x a predicate that accepts or rejects, a hedge without
+    room for a hedge or with a zero / huge delay, huge time limits, a one-slot bulkhead that waits, a one-entry cache, a circuit
+    breaker whose thresholds the case cannot reach, a limiter whose limit cannot move, chaos with rates exactly 0, reconnect
+    without a policy / without attempts. '' = the configuration the name stands for."""
+    if l == "retry":
+        parts = ["ma:%d" % rng.choice([0, 0, 0, 1, 1, 2, 3, 5])]
+        if rng.random() < 0.3:
+            parts.append("maf:1")
+        if rng.random() < 0.4:
+            parts.append("bo:%d" % rng.choice([0, 0, 5, 10]))
+        if rng.random() < 0.35:
+            parts.append("ro:" + rng.choice(["all", "all", "e2", "none", "e1"]))
+        return "/".join(parts)
+    if l == "fallback":
+        parts = ["st:" + rng.choice(FB_STRATEGIES), "hp:" + rng.choice(FB_PREDICATES)]
+        if rng.random() < 0.3:
+            parts.append("ho:1")
+        return "/".join(parts)
+    if l == "hedge1":
+        parts = ["n:%d" % rng.choice([0, 0, 1])]
+        if rng.random() < 0.6:
+            parts.append("d:" + rng.choice(["0", "0", "5", "max", "none", "3600000"]))
+        return "/".join(parts)
+    if l == "hedge":
+        r = rng.random()
+        if r < 0.5:
+            return "n:%d/d:%s" % (rng.choice([0, 0, 1]), rng.choice(["0", "5", "max", "none", "3600000"]))
+        if all_ok and r < 0.8:
+            return "n:%d/d:max" % rng.choice([2, 3])      # (a failing first attempt would wait for its hedge for ever)
+        return "n:%d" % rng.choice([2, 3])
+    if l in ("timelimiter", "timelimiter_nocancel"):
+        return "to:" + rng.choice(["max", "max", "3600000", "7200000", "86400000000"])
+    if l == "bulkhead":
+        return "mc:%d" % rng.choice([1, 1, 1, max(nreq, 1), demand])
+    if l == "cache":
+        parts = ["sz:%d" % rng.choice([1, 1, 2])]
+        if rng.random() < 0.6:
+            parts.append("ttl:" + rng.choice(["0", "1", "5", "max"]))
+        if rng.random() < 0.4:
+            parts.append("ev:" + rng.choice(["lru", "lfu", "fifo"]))
+        return "/".join(parts)
+    if l == "circuit":
+        r = rng.random()
+        if r < 0.4:
+            return "cb:%d:%d:%d" % (demand + 1, demand + 1, rng.choice([1, 50, 100]))    # never evaluated: one call short
+        if r < 0.7:
+            return "cb:%d:%d:101" % (rng.choice([1, 2, 4]), rng.choice([1, 1, 2]))        # a rate no window reaches
+        return "cb:%d:%d:50" % (demand + 3, demand + 1)
+    if l == "adaptive":
+        return "lim:%d" % max(demand, 1)
+    if l == "chaos":
+        return rng.choice(["ef:0", "ef:0/lat:1", "ero:1", "ero:1/lat:1", "lat:1"])
+    if l == "reconnect":
+        return rng.choice(["pol:none", "pol:none", "ma:0", "ma:0", "ma:1", "ror:0", "ma:unl", "pol:none/ma:0"])
+    if l == "executor":
+        return "ex:handle"
+    return ""
+
+
+def _configure(rng, layers, scripts, p, rl_ok=True, probes=0):
+    """-> header words ` cf<j>=…` (+ ` rl=…`): each configurable layer gets boundary knobs with probability p"""
+    fan = 1
+    knobs = {}
+    nerr = sum(1 for st in scripts for x in st if not x.endswith(":ok"))
+    all_ok = nerr == 0
+    # the hedges first: their attempts multiply what the case can ask of every other layer
+    for j, l in enumerate(layers):
+        if l in ("hedge", "hedge1") and rng.random() < p:
+            knobs[j] = _layer_knobs(rng, l, 0, len(scripts), all_ok)
+    for j, l in enumerate(layers):
+        if BASE.get(l) == "hedge":
+            fan *= max(hedge_eff(l, layer_cf({"cf%d" % j: knobs.get(j, "")}, j))[0], 1)
+    demand = fan * (probes + sum(sum(1 for x in st if not x.endswith(":ok")) + 1 for st in scripts))
+    for j, l in enumerate(layers):
+        if l not in ("hedge", "hedge1") and rng.random() < p:
+            knobs[j] = _layer_knobs(rng, l, demand, len(scripts), all_ok)
+    words = "".join(" cf%d=%s" % (j, k) for j, k in sorted(knobs.items()) if k)
+    if rl_ok and "ratelimiter" in layers and not any(l in ("hedge_fire", "hedge_parallel") for l in layers) and rng.random() < p:
+        # a limit the case can just reach: every permit of the (one-hour) window may be handed out, none refused
+        words += " rl=%d:3600000:%s:%d" % (rng.choice([demand, demand, demand + 1]), rng.choice(RL_WINDOWS), rng.choice([0, 0, 10]))
+    return words
+
+
+def gen_configured(rng):
+    """every layer has knobs, and for each value of each knob there are requests that must still pass straight through:
+    1-3 layers, the first chosen one always at a boundary value of its knobs (the others half of the time), requests one
+    after the other or overlapping, with outcomes aimed at the configuration: runs of retryable errors as long as the retry
+    layer has attempts (on an error outcome with the attempts exhausted the LAST error must come back unchanged),
+    both error kinds for the fallback predicates, connection failures for reconnect."""
+    focus = rng.choice(CONFIGURABLE)
+    others = [rng.choice(VARIANTS) for _ in range(rng.choice([0, 0, 1, 1, 2]))]
+    layers = list(others)
+    layers.insert(rng.randint(0, len(layers)), focus)
+    inner = rng.choice(["strict", "strict", "strict", "climit", "buffer"])
+    nreq = rng.choice([1, 1, 2, 3, 4])
+    scripts = []
+    for _ in range(nreq):
+        r = rng.random()
+        if r < 0.3:
+            steps = ["%d:ok" % rng.choice([0, 0, 5, 20])]
+        elif r < 0.6:
+            # a run of failures (mostly of one kind), then perhaps a success
+            k = rng.choice([1, 1, 2, 3, 4, 6])
+            kind = rng.choice(["err1", "err1", "err2"])
+            steps = ["%d:%s" % (rng.choice([0, 0, 5]), kind if rng.random() < 0.85 else rng.choice(["err1", "err2"])) for _ in range(k)]
+            if rng.random() < 0.5:
+                steps.append("%d:ok" % rng.choice([0, 5]))
+        else:
+            steps = _script(rng, rng.choice(["ok", "err1", "err2", "err2"]))
+        scripts.append(steps)
+    header = "stack layers=%s inner=%s" % (",".join(layers), inner)
+    if inner == "climit":
+        header += " cl=%d" % rng.choice([1, 2, 16])
+    header += _configure(rng, layers, scripts, 0.5, rl_ok=True)
+    j = layers.index(focus)
+    if " cf%d=" % j not in header and focus not in ("ratelimiter", "coalesce"):
+        header += _configure(rng, [focus if i == j else "" for i in range(len(layers))], scripts, 1.0, rl_ok=False)
+    if inner == "strict" and rng.random() < 0.25:
+        header += " ready=" + "".join(rng.choice("rrrrpp") for _ in range(rng.randint(1, 6)))
+    header += " lp=%d" % rng.choice([0, 0, 0, 3, 5, 7])
+    ops, nerr, kept = [], 0, []
+    sequential = rng.random() < 0.7
+    tags = rng.sample(range(1, 100), nreq)
+    for i, steps in enumerate(scripts):
+        c = i + 1
+        nerr += sum(1 for x in steps if "err" in x)
+        op = "arrive %d tag=%d inner=%s" % (c, tags[i], ",".join(steps))
+        op += rng.choice(["", "", " how=held", " polls=2"])
+        if inner != "climit" and rng.random() < 0.2:
+            op += " keep=1"
+            kept.append(c)
+        ops.append(op)
+        if sequential:
+            ops.append("settle")
+            for _ in range(2 * len(steps) + 2):
+                ops += ["adv %d" % rng.choice([5, 5, 10, 25]), "settle"]
+        elif rng.random() < 0.5:
+            ops.append(rng.choice(["settle", "poll %d" % c, "adv 5"]))
+    _drain(ops, layers, nerr)
+    if kept and rng.random() < 0.5:
+        ops.insert(len(ops) - 1, "release %d" % rng.choice(kept))
+    return {"header": header, "ops": ops}
+
+
 def gen(rng, tier):
     r0 = rng.random()
+    if 0.44 <= r0 < 0.56:
+        return gen_configured(rng)
     if 0.17 <= r0 < 0.24:
         return gen_probing_listener(rng)
     if 0.24 <= r0 < 0.30:
@@ -491,8 +649,204 @@ def gen(rng, tier):
         lp |= rng.choice([0, 8, 8])
         header += " lpt=%d" % rng.randint(1, 7)
     header += " lp=%d" % lp
+    if rng.random() < 0.35 and not any(o.startswith("drop") for o in ops):
+        # boundary values of the layers' own knobs (see gen_configured)
+        scripts = [kvs(o).get("inner", "0:ok").split(",") for o in ops if o.startswith("arrive")]
+        header += _configure(rng, layers, scripts, 0.5, rl_ok=" rl=" not in header)
     _drain(ops, layers, nerr)
     return {"header": header, "ops": ops}
+
+
+# ----------------------------------------------------------------------------- configured layers
+
+BIG = 18446744073709551615000       # `max` = Duration::MAX, in ms: longer than any case
+
+
+def _dur(v):
+    return BIG if v == "max" else int(v) if str(v).isdigit() else 0
+
+
+def layer_cf(cfg, j):
+    """`cf<j>=<knob>:<value>/<knob>:<value>` -> {knob: value} (a value may contain `:`)"""
+    out = {}
+    for it in cfg.get("cf%d" % j, "").split("/"):
+        k, sep, v = it.partition(":")
+        if sep:
+            out.setdefault(k, v)
+    return out
+
+
+def _pred(w):
+    """which error kinds a configured predicate accepts: a function kind -> bool (`unset`: a fallback without a `handle`
+    predicate handles every error)"""
+    if w in ("all", "unset"):
+        return lambda kd: True
+    if w == "e1":
+        return lambda kd: kd == 1
+    if w == "e2":
+        return lambda kd: kd == 2
+    return lambda kd: False
+
+
+def hedge_eff(name, cf):
+    """(max attempts, delay in ms | None = the hedges start at once) of a hedge layer"""
+    n, d = {"hedge": (2, 3600000), "hedge1": (1, 3600000), "hedge_fire": (2, 5), "hedge_parallel": (3, None)}[name]
+    if "n" in cf:
+        n = int(cf["n"]) if cf["n"].isdigit() else n
+    if "d" in cf:
+        d = None if cf["d"] == "none" or _dur(cf["d"]) == 0 else _dur(cf["d"])
+    return n, d
+
+
+def lcfg_of(name, cf, rl):
+    """What one layer in one configuration is, as far as ONE request can tell (the python twin of `TR.Stack.lcfgOf`,
+    written from the layers' documentation, used by the implementation-side oracle):
+    ("wrap", name) forwards once, an error comes back as name(...); ("bare",) forwards once, nothing changed;
+    ("guard", name, cap, wait) a capacity that cannot be reached while the case has made <= cap calls or the request took
+    less than `wait`; ("limiter", name, timeout); ("retry", max, pred); ("fallback", strategy, pred); ("hedge", n, delay);
+    ("reconnect", max | None, policy, retry); ("opaque",) not predicted."""
+    num = lambda v, d: int(v) if str(v).isdigit() else d
+    if name == "bulkhead":
+        return ("guard", "bulkhead", num(cf.get("mc", ""), 100), _dur(cf["mw"])) if "mw" in cf else ("wrap", "bulkhead")
+    if name == "bulkhead1":
+        return ("guard", "bulkhead", 1, 0)
+    if name == "bulkhead1w":
+        return ("guard", "bulkhead", 1, 10)
+    if name == "ratelimiter":
+        # (a limiter that sees that the wait for a permit would exceed its timeout rejects at once: no `wait`)
+        return ("guard", "ratelimiter", num((rl or "").split(":")[0], 100000), 0)
+    if name == "circuit":
+        if "cb" in cf:
+            p = cf["cb"].split(":")
+            thr = num(p[2], 50) if len(p) > 2 else 50
+            return ("wrap", "circuit") if thr > 100 else ("guard", "circuit", max(num(p[1], 1000) if len(p) > 1 else 1000, 1) - 1, 0)
+        return ("guard", "circuit", 999, 0)
+    if name in ("timelimiter", "timelimiter_nocancel"):
+        return ("limiter", "timelimiter", _dur(cf["to"]) if "to" in cf else 3600000)
+    if name == "retry":
+        return ("retry", num(cf.get("ma", ""), 3), cf.get("ro", "e1"))
+    if name == "fallback":
+        return ("fallback", cf.get("st", "value"), cf.get("hp", "never"))
+    if name in ("hedge", "hedge1", "hedge_fire", "hedge_parallel"):
+        return ("hedge",) + hedge_eff(name, cf)
+    if name == "reconnect":
+        ma = cf.get("ma", "2")
+        return ("reconnect", None if ma == "unl" else num(ma, 2), cf.get("pol", "fixed") != "none", cf.get("ror", "1") == "1")
+    if name == "adaptive":
+        return ("guard", "adaptive", num(cf.get("lim", ""), 500), 0)
+    if name in ("cache", "coalesce", "executor"):
+        return ("wrap", name)
+    if name == "chaos":
+        return ("bare",)
+    return ("opaque",)
+
+
+def stack_cfgs(cfg, layers):
+    return [lcfg_of(l, layer_cf(cfg, j), cfg.get("rl", "")) for j, l in enumerate(layers)]
+
+
+def fanout_of(effs):
+    f = 1
+    for e in effs:
+        if e[0] == "hedge":
+            f *= max(e[1], 1)
+    return f
+
+
+def _wrap(e, name):
+    return ("err", name + "(" + e[1], e[2], e[3], e[4] + ")")
+
+
+FALLBACK_ANSWER = {"value": "ok:999999:tag=999999", "valuefn": "ok:999998:tag=999998", "fromerr": "ok:999997:tag=999997",
+                   "fromreq": "ok:999996:tag=%s", "service": "ok:999995:tag=%s"}
+
+
+def denote(effs, ctx, k, s):
+    """What the stack `effs` (outermost first) makes of one request whose inner calls have the outcomes `s` (beyond the script:
+    success), `k` inner calls having been made: (answer, inner calls made, outcomes left) or None = not predicted.
+    answer: ("ok", ord) the response of the request's ord-th inner call | ("lit", text) | ("err", pre, kind, ord, post).
+    ctx: tag, demand (upper bound on the calls at any boundary so far in the case), span (ms from arrival to answer)."""
+    if not effs:
+        if not s:
+            return ("ok", k + 1), k + 1, []
+        if s[0] == "ok":
+            return ("ok", k + 1), k + 1, s[1:]
+        if s[0].startswith("err") and s[0][3:].isdigit():
+            return ("err", "", int(s[0][3:]), k + 1, ""), k + 1, s[1:]
+        return None
+    e, rest = effs[0], effs[1:]
+    inner = lambda k, s: denote(rest, ctx, k, s)
+    kind = e[0]
+    if kind == "opaque":
+        return None
+    if kind in ("wrap", "guard", "limiter"):
+        if kind == "guard" and not (ctx["demand"] <= e[2] or ctx["span"] < e[3]):
+            return None
+        if kind == "limiter" and not ctx["span"] < e[2]:
+            return None
+        r = inner(k, s)
+        if r and r[0][0] == "err":
+            return _wrap(r[0], e[1]), r[1], r[2]
+        return r
+    if kind == "bare":
+        return inner(k, s)
+    if kind == "retry":
+        left, accepts = max(e[1], 1) - 1, _pred(e[2])
+        while True:
+            r = inner(k, s)
+            if r is None or r[0][0] != "err" or left == 0 or not accepts(r[0][2]):
+                return r
+            left, k, s = left - 1, r[1], r[2]
+    if kind == "fallback":
+        r = inner(k, s)
+        if r is None or r[0][0] != "err":
+            return r
+        if not _pred(e[2])(r[0][2]):
+            return _wrap(r[0], "fallback"), r[1], r[2]
+        if e[1] == "exc":
+            return _wrap(_wrap(r[0], "mapped"), "fallback"), r[1], r[2]
+        t = FALLBACK_ANSWER.get(e[1], FALLBACK_ANSWER["value"])
+        return ("lit", t % ctx["tag"] if "%s" in t else t), r[1], r[2]
+    if kind == "hedge":
+        n, d = e[1], e[2]
+        if n <= 1:
+            r = inner(k, s)
+            if r and r[0][0] == "err":
+                return _wrap(r[0], "hedge!all_failed"), r[1], r[2]
+            return r
+        if d is None or not ctx["span"] < d:
+            return None
+        r = inner(k, s)
+        return None if r is None or r[0][0] == "err" else r
+    if kind == "reconnect":
+        mx, policy, retry = e[1], e[2], e[3]
+        att = 0
+        for _ in range(len(s) + 2):
+            r = inner(k, s)
+            if r is None or r[0][0] != "err":
+                return r
+            if r[0][2] != 1:
+                return _wrap(r[0], "reconnect"), r[1], r[2]
+            att += 1
+            if mx is not None and att > mx:
+                return _wrap(r[0], "reconnect!max_attempts:%d" % att), r[1], r[2]
+            if not policy:
+                return _wrap(r[0], "reconnect!conn_failed"), r[1], r[2]
+            if not retry:
+                return _wrap(r[0], "reconnect!no_retry"), r[1], r[2]
+            k, s = r[1], r[2]
+        return None
+    return None
+
+
+def describe_cfg(layers, cfg):
+    out = []
+    for j, l in enumerate(layers):
+        c = cfg.get("cf%d" % j)
+        out.append("%s[%s]" % (l, c) if c else l)
+    if "rl" in cfg:
+        out.append("rl=" + cfg["rl"])
+    return ",".join(out)
 
 
 # ----------------------------------------------------------------------------- shared parsing
@@ -534,28 +888,50 @@ def wrap(layer, text):
     return "%s(%s)" % (b, text)          # Inner / Service / ServiceError variant, rendered `<layer>(…)`
 
 
-def chain(layers, text, call_error):
+def chain(layers, text, call_error, cfg=None):
     """expected text of an inner error after it passed all layers, innermost first.
     `call_error`: the error of the (single) call; otherwise an error of poll_ready."""
-    for l in reversed(layers):
-        if call_error and l == "hedge1":
+    for j in reversed(range(len(layers))):
+        l = layers[j]
+        if call_error and BASE.get(l) == "hedge" and hedge_eff(l, layer_cf(cfg or {}, j))[0] <= 1:
             text = "hedge!all_failed(%s)" % text      # a single-attempt hedge reports its only failure as AllAttemptsFailed
         else:
             text = wrap(l, text)
     return text
 
 
-def triggered(layers, rq):
-    """is some layer's protective condition triggered by this request's scripted outcomes?"""
+def _kind(out):
+    return int(out[3:]) if out.startswith("err") and out[3:].isdigit() else None
+
+
+def triggered(layers, rq, cfg=None):
+    """is some layer's protective condition triggered by this request's scripted outcomes? (`cfg`: the header — the
+    layers' knobs `cf<j>` decide what triggers them: a retry layer without retries, a hedge without room for a hedge
+    and a fallback whose predicate rejects the error are not triggered by anything)"""
     lat, out = rq["steps"][0]
-    for l in layers:
-        if l in ("retry", "reconnect") and out == "err1":
+    kd = _kind(out)
+    for j, l in enumerate(layers):
+        cf = layer_cf(cfg or {}, j)
+        if l == "retry" and kd is not None and _pred(cf.get("ro", "e1"))(kd) and cf.get("ma", "3") not in ("0", "1"):
             return True
-        if l == "hedge_parallel":
+        if l == "reconnect" and out == "err1":
             return True
-        if l == "hedge_fire" and (lat >= 5 or out != "ok"):
+        if l == "fallback" and kd is not None and _pred(cf.get("hp", "never"))(kd):
             return True
-        if l == "hedge" and out != "ok":
+        if BASE.get(l) == "hedge":
+            n, d = hedge_eff(l, cf)
+            if n >= 2 and (d is None or lat >= d or out != "ok"):
+                return True
+    return False
+
+
+def fallback_may_answer(layers, rq, cfg):
+    """may a fallback layer replace an error of this request (its predicate accepts one of the scripted error kinds)?"""
+    kinds = {_kind(o) for _, o in rq["steps"]} - {None}
+    for j, l in enumerate(layers):
+        hp = layer_cf(cfg, j).get("hp", "never")
+        # (a fallback for every error also handles what the layers below it produce themselves: a rejection, a timeout)
+        if l == "fallback" and (hp in ("all", "unset") or any(_pred(hp)(k) for k in kinds)):
             return True
     return False
 
@@ -572,6 +948,16 @@ def hoarding_possible(cfg, layers):
         if l in HEDGES_THAT_REPOLL and "coalesce" in layers[i + 1:]:
             return True
     return False
+
+
+def waiters_hoard(cfg, layers, reqs):
+    """The same with requests that share a key by themselves: the waiters of a coalesce layer hold what their instances reserved
+    while their leader's NEXT attempt — made by a retry / reconnect / hedge layer below the coalesce layer — waits for capacity."""
+    if cfg.get("inner", "strict") == "strict" or "coalesce" not in layers:
+        return False
+    keys = [_key(rq["tag"]) for rq in reqs.values()]
+    below = layers[layers.index("coalesce") + 1:]
+    return len(set(keys)) < len(keys) and any(l in HEDGES_THAT_REPOLL or l in ("retry", "reconnect") for l in below)
 
 
 def layer_detaches(l):
@@ -700,6 +1086,70 @@ def _results(lines):
     return res
 
 
+def calls_bound(steps):
+    """how many calls one request can cause at any one boundary, attempts side by side apart: a request is re-issued only
+    after a call made for it has failed, and beyond its script every call succeeds"""
+    return sum(1 for _, out in steps if out != "ok") + 1
+
+
+def predictions(case, lines, meta):
+    """For which requests is the answer determined by the layers' configurations and the request's own scripted outcomes —
+    and what is it? -> {request id: (answer, inner calls, span, demand)}. Not predicted (those are checked by the weaker,
+    configuration-independent clauses): requests that never were handed to the stack, requests that share a key under a
+    cache / coalesce layer, cases in which a caller is dropped, readiness errors meeting re-issued attempts, a Buffer
+    under racing attempts, and everything `denote` leaves open (racing hedges, limits that other requests may use up)."""
+    cfg, layers = _cfg(case)
+    reqs = _requests(case)
+    effs = stack_cfgs(cfg, layers)
+    reissues = any((e[0] == "retry" and e[1] >= 2) or e[0] == "reconnect" or (e[0] == "hedge" and e[1] >= 2) for e in effs)
+    racing = any(e[0] == "hedge" and e[1] >= 2 for e in effs)
+    if "e" in cfg.get("ready", "") and reissues:
+        return {}
+    if cfg.get("inner", "strict") == "buffer" and racing:
+        return {}
+    if any(o.split()[:1] in (["drop"], ["dropall"]) for o in case["ops"]):
+        return {}
+    tags = [rq["tag"] for rq in reqs.values()]
+    if len(set(tags)) != len(tags):
+        return {}
+    keyed = any(l in ("cache", "coalesce") for l in layers)
+    fan = fanout_of(effs)
+    plan = [(0, x.partition(":")[2]) for x in cfg.get("lqinner", "0:ok").split(",")]
+    probes = (int(cfg.get("lq", "0")) + int(cfg.get("lqe", "0"))) * calls_bound(plan) * fan
+    tag2c = {rq["tag"]: c for c, rq in reqs.items()}
+    arrived, called_at, out = [], {}, {}
+    for i, l in enumerate(lines):
+        t, w = tparse(l)
+        if len(w) >= 4 and w[0] == "b0" and w[1] == "call" and w[3] in tag2c:
+            c = tag2c[w[3]]
+            called_at.setdefault(c, t)
+            if c not in arrived:
+                arrived.append(c)
+        elif len(w) >= 3 and w[0] == "result" and w[1] in reqs:
+            c = w[1]
+            if c not in arrived:
+                arrived.append(c)
+            if c not in called_at or c in out:
+                continue
+            if keyed and any(q != c and _key(reqs[q]["tag"]) == _key(reqs[c]["tag"]) for q in reqs):
+                continue
+            demand = probes + sum(calls_bound(reqs[q]["steps"]) * fan for q in arrived)
+            ctx = {"tag": reqs[c]["tag"], "demand": demand, "span": t - called_at[c]}
+            r = denote(effs, ctx, 0, [o for _, o in reqs[c]["steps"]])
+            if r is not None:
+                out[c] = (r[0], r[1], ctx["span"], demand)
+    return out
+
+
+def render_answer(ans, tag, serials):
+    ser = lambda o: serials[o - 1] if 0 < o <= len(serials) else "#%d" % o
+    if ans[0] == "ok":
+        return "ok:%s:tag=%s" % (ser(ans[1]), tag)
+    if ans[0] == "lit":
+        return ans[1]
+    return "err:%sierr%d:%s%s" % (ans[1], ans[2], ser(ans[3]), ans[4])
+
+
 # ----------------------------------------------------------------------------- monitors
 
 def mon_readiness_contract(case, lines, meta):
@@ -715,7 +1165,12 @@ def mon_readiness_contract(case, lines, meta):
             if k.get("ready") != "1":
                 return "line %d: the inner service was called on an instance that had not observed readiness since its last call: %s" % (i, l)
         elif w[0] == "result" and len(w) >= 3 and w[2] == "panic":
-            return "line %d: request %s panicked (no scripted panic; `poll_ready must be called first` of Buffer/ConcurrencyLimit?)" % (i, w[1])
+            cfg0, layers0 = _cfg(case)
+            return ("line %d: request %s, sent through %s, panicked — no inner call is scripted to panic: the stack itself did (a call of a "
+                    "Buffer / ConcurrencyLimit instance that had not reserved capacity — `poll_ready must be called first` —, or a layer that "
+                    "cannot cope with its own configuration); the request was %s" % (
+                        i, w[1], describe_cfg(layers0, cfg0),
+                        "forwarded to the wrapped service" if any(tparse(x)[1][:2] == ["inner_call", w[1]] for x in lines) else "never forwarded to the wrapped service"))
     # wedged requests: only decided when the case lets every timer expire after the last arrival
     # (>= 3 rounds of `adv >= 25` + `settle`; keeps shrunk cases meaningful)
     rounds = 0
@@ -732,7 +1187,8 @@ def mon_readiness_contract(case, lines, meta):
         hours = sum(1 for w in ops if w[:1] == ["adv"] and int(w[1]) >= 3600000)
         if hours < nerr + 1:
             rounds = 0
-    if rounds >= 3 and not hoarding_possible(kvs(case["header"]), layers) and not cache_hit_hoards(kvs(case["header"]), layers, reqs, lines, meta):
+    if (rounds >= 3 and not hoarding_possible(kvs(case["header"]), layers) and not waiters_hoard(kvs(case["header"]), layers, reqs)
+            and not cache_hit_hoards(kvs(case["header"]), layers, reqs, lines, meta)):
         for c, rq in reqs.items():
             if not rq["dropped"] and c not in res:
                 why = ""
@@ -844,22 +1300,46 @@ def mon_transparent(case, lines, meta):
         return bad
     rl_small = _rl_cfg(kvs(case["header"])) is not None and "ratelimiter" in layers
     keyed = keyed_interference(layers, reqs, lines, meta)
+    cfg = kvs(case["header"])
+    effs = stack_cfgs(cfg, layers)
+    predicted = predictions(case, lines, meta)
     for c, rq in reqs.items():
         r = res.get(c)
         mine = calls.get(rq["tag"], [])
         if r is None or rq["dropped"]:
             continue
+        if c in predicted:
+            # the layers' configurations and the request's own outcomes determine the answer: forwarded exactly as often as
+            # the configuration allows (once, unless a retry / reconnect layer may re-issue it and its calls fail), and the
+            # answer is the last call's response or error, unchanged but for the pass-through variants (or what a fallback
+            # that handles the error makes of it)
+            ans, k, span, demand = predicted[c]
+            exp = render_answer(ans, rq["tag"], [x for _, x in mine])
+            if len(mine) != k or r != exp:
+                outs = ",".join(o for _, o in rq["steps"])
+                return ("request %s (tag %s, scripted outcomes of its inner calls: %s; beyond them success) through %s: no layer's protective "
+                        "condition allows anything but forwarding it %d time(s) and answering %s (the %s inner call's outcome, unchanged but "
+                        "for the pass-through variants) — it was forwarded %d time(s) (inner calls %s) and answered %s" % (
+                            c, rq["tag"], outs, describe_cfg(layers, cfg), k, exp,
+                            "last" if k > 1 else "one", len(mine), [x for _, x in mine], r))
+            continue
         if rl_small and "ratelimiter!limited" in r and c not in keyed:
             # rejected by a rate limiter whose window is used up (justified: see above): a triggered layer. What is left of
             # transparency: the request was not forwarded (unless an earlier attempt of a retry / reconnect was), and every
             # layer above the limiter passes the rejection on like any error of its inner service
-            if mine and not triggered(layers, rq):
+            if mine and not triggered(layers, rq, cfg):
                 return "request %s (tag %s) was rejected by the rate limiter (%s) and yet reached the inner service (%d calls)" % (c, rq["tag"], r, len(mine))
-            if layers.count("ratelimiter") == 1 and not triggered(layers, rq):
-                exp = "err:" + chain(layers[:layers.index("ratelimiter")], "ratelimiter!limited", True)
+            above = layers[:layers.index("ratelimiter")]
+            # (a fallback above that handles every error, or a retry of every error, legitimately deals with the rejection too)
+            absorbs = any((l == "fallback" and layer_cf(cfg, j).get("hp", "never") in ("all", "unset")) or
+                          (l == "retry" and layer_cf(cfg, j).get("ro", "e1") == "all") for j, l in enumerate(above))
+            if layers.count("ratelimiter") == 1 and not triggered(layers, rq, cfg) and not absorbs:
+                exp = "err:" + chain(layers[:layers.index("ratelimiter")], "ratelimiter!limited", True, cfg)
                 if r != exp:
                     return "request %s (tag %s) was rejected by the rate limiter: expected %s, got %s" % (c, rq["tag"], exp, r)
             continue
+        if fallback_may_answer(layers, rq, cfg):
+            continue            # (what a fallback makes of an error it handles is checked where the answer is predicted)
         if c in keyed:
             # a keyed layer may legitimately answer with the response of a same-key request's call (coalesced / cached)
             if r.startswith("ok:"):
@@ -878,7 +1358,7 @@ def mon_transparent(case, lines, meta):
             m = re.match(r"^ok:(\d+):tag=(\d+)$", r)
             if not m or m.group(2) != rq["tag"] or m.group(1) not in [k for _, k in mine]:
                 return "request %s (tag %s) was answered %s, which is not the response of one of its inner calls %s" % (c, rq["tag"], r, [k for _, k in mine])
-        if triggered(layers, rq):
+        if triggered(layers, rq, cfg):
             continue
         if len(mine) != 1:
             return "request %s (tag %s, no layer triggered) caused %d inner calls, expected exactly one" % (c, rq["tag"], len(mine))
@@ -887,7 +1367,7 @@ def mon_transparent(case, lines, meta):
         if out == "ok":
             exp = "ok:%s:tag=%s" % (k, rq["tag"])
         else:
-            exp = "err:" + chain(layers, "i%s:%s" % (out, k), True)
+            exp = "err:" + chain(layers, "i%s:%s" % (out, k), True, cfg)
         if r != exp:
             return "request %s (tag %s, no layer triggered): expected %s, got %s" % (c, rq["tag"], exp, r)
     return None
@@ -900,7 +1380,7 @@ def mon_readiness_errors(case, lines, meta):
         return None
     n = len(layers)
     res = _results(lines)
-    exp = "readyerr:" + chain(layers, "ierr9:0", False)
+    exp = "readyerr:" + chain(layers, "ierr9:0", False, cfg)
     words = [tparse(l)[1] for l in lines]
     inner_err = 0
     surfaced_at_b0 = 0
@@ -935,6 +1415,10 @@ def mon_readiness_errors(case, lines, meta):
     # (inside a retry / reconnect attempt it is returned as the call's error; a hedge may win with another attempt)
     seen = sum(1 for r in res.values() if "ierr9:0" in r)
     dropped = any(r["dropped"] for r in _requests(case).values())
+    for j, l in enumerate(layers):
+        cf = layer_cf(cfg, j)
+        if (l == "fallback" and cf.get("hp", "never") in ("all", "unset")) or (l == "retry" and cf.get("ro", "e1") == "all" and cf.get("ma", "3") not in ("0", "1")):
+            return None     # a fallback that handles every error / a retry of every error legitimately absorbs a readiness error met by an attempt
     if "coalesce" in layers and keyed_interference(layers, _requests(case), lines, meta):
         return None         # a coalesced request shares its leader's answer, the readiness error included
     if any(l in HEDGES_THAT_REPOLL for l in layers) or dropped:
@@ -1144,7 +1628,7 @@ def transitions(case, lines, meta=None):
         if rq["dropped"]:
             tags.append("dropped")
         k = ncalls.get(c, 0)
-        trig = triggered(layers, rq)
+        trig = triggered(layers, rq, cfg)
         if k > 1 and any(l in ("retry", "reconnect") for l in layers) and rq["steps"][0][1] == "err1":
             tags.append("retried")
         if k > 1 and any(BASE.get(l) == "hedge" for l in layers):
@@ -1161,6 +1645,94 @@ def transitions(case, lines, meta=None):
             tags.append("notready")
     if "inner-recovery" in tags and "retried" in tags and "readiness-pending" in tags:
         tags.append("recovery-pending-under-retry")
+    tags += config_tags(case, lines, meta or [], cfg, layers, reqs, res, ncalls)
+    return tags
+
+
+def config_tags(case, lines, meta, cfg, layers, reqs, res, ncalls):
+    """coverage of the layers' own knobs: which boundary values were exercised, and with which kind of request"""
+    tags = []
+    pred = predictions(case, lines, meta)
+    for c, (ans, k, span, demand) in pred.items():
+        tags.append("answer-predicted")
+        if k > 1:
+            tags.append("answer-predicted-after-%s" % ("retries" if k > 1 else "one-call"))
+        if ans[0] == "lit":
+            tags.append("answer-predicted-fallback-value")
+    kinds_of = lambda c: [_kind(o) for _, o in reqs[c]["steps"]]
+    for j, l in enumerate(layers):
+        cf = layer_cf(cfg, j)
+        if not cf and not (l == "ratelimiter" and "rl" in cfg):
+            continue
+        b = BASE.get(l, l)
+        tags.append("cfg-" + b)
+        answered = [c for c in reqs if c in res and c in pred]
+        if l == "retry":
+            ma = cf.get("ma", "3")
+            tags.append("cfg-retry-ma" + (ma if ma in ("0", "1") else "n"))
+            if cf.get("maf") == "1":
+                tags.append("cfg-retry-max-attempts-fn")
+            if cf.get("bo") == "0":
+                tags.append("cfg-retry-zero-backoff")
+            if "ro" in cf:
+                tags.append("cfg-retry-predicate-" + cf["ro"])
+            accepts = _pred(cf.get("ro", "e1"))
+            for c in answered:
+                ks = kinds_of(c)
+                if ks[0] is not None and accepts(ks[0]):
+                    n = max(int(ma) if ma.isdigit() else 3, 1)
+                    if ma in ("0", "1"):
+                        tags.append("cfg-retry-no-retries-on-retryable-error")
+                    elif pred[c][1] >= n and pred[c][0][0] == "err" and len(layers) == 1:
+                        tags.append("cfg-retry-attempts-exhausted-last-error")
+        elif l == "fallback":
+            st, hp = cf.get("st", "value"), cf.get("hp", "never")
+            tags.append("cfg-fallback-" + st)
+            for c in answered:
+                ks = [k for k in kinds_of(c)[:1] if k is not None]
+                if not ks:
+                    tags.append("cfg-fallback-%s-success" % st)
+                elif _pred(hp)(ks[0]):
+                    tags.append("cfg-fallback-%s-handled" % st)
+                else:
+                    tags.append("cfg-fallback-%s-rejected" % st)
+            if cf.get("ho") == "1":
+                tags.append("cfg-fallback-predicate-first")
+            if hp == "unset":
+                tags.append("cfg-fallback-no-predicate")
+        elif b == "hedge":
+            n, d = hedge_eff(l, cf)
+            tags.append("cfg-hedge-n%s" % (n if n <= 1 else "n"))
+            if "d" in cf:
+                tags.append("cfg-hedge-delay-" + ("zero" if d is None else "max" if d >= BIG else "ms"))
+            if answered and n <= 1:
+                tags.append("cfg-hedge-no-room-answered")
+        elif b == "timelimiter":
+            tags.append("cfg-timelimiter-" + ("max" if cf.get("to") == "max" else "huge"))
+        elif l == "bulkhead":
+            tags.append("cfg-bulkhead-" + ("one-slot-waits" if cf.get("mc") == "1" else "slots"))
+        elif l == "cache":
+            if cf.get("sz") == "1":
+                tags.append("cfg-cache-one-entry")
+            if "ttl" in cf:
+                tags.append("cfg-cache-ttl-" + cf["ttl"])
+        elif l == "ratelimiter":
+            if any(c in pred for c in reqs):
+                tags.append("cfg-ratelimiter-limit-reached-not-exceeded")
+        elif l == "circuit":
+            tags.append("cfg-circuit-cannot-trip")
+            if any(ks and ks[0] is not None for ks in (kinds_of(c) for c in answered)):
+                tags.append("cfg-circuit-cannot-trip-failing-calls")
+        elif l == "adaptive":
+            tags.append("cfg-adaptive-fixed-limit")
+        elif l == "chaos":
+            tags.append("cfg-chaos-" + ("no-error-fn" if cf.get("ef") == "0" else "error-fn-first" if cf.get("ero") == "1" else "latency-bounds"))
+        elif l == "reconnect":
+            tags.append("cfg-reconnect-" + ("no-policy" if cf.get("pol") == "none" else "max-attempts-" + cf["ma"] if "ma" in cf else "no-retry"))
+            if any(kinds_of(c)[0] == 1 for c in answered):
+                tags.append("cfg-reconnect-connection-failure-predicted")
+        elif l == "executor":
+            tags.append("cfg-executor-handle")
     return tags
 
 
@@ -1183,7 +1755,19 @@ ALL_TR = (["layer-" + l for l in VARIANTS] + ["mw-" + l for l in THIRTEEN] +
           ["rl-near-limit", "rl-waits", "rl-rejected", "rl-forwards-after-rollover"] + ["rl-window-" + w for w in RL_WINDOWS] +
           ["rl-forwards-after-rollover-" + w for w in RL_WINDOWS] +
           ["reconnect-attempt-reported", "state-change-callback-panics-on-reconnecting", "state-change-callback-panics-on-other-transitions",
-           "on-reconnect-callback-panics"])
+           "on-reconnect-callback-panics"] +
+          ["answer-predicted", "answer-predicted-after-retries", "answer-predicted-fallback-value"] +
+          ["cfg-" + l for l in ("retry", "fallback", "hedge", "timelimiter", "bulkhead", "cache", "ratelimiter", "circuit", "adaptive", "chaos",
+                                "reconnect", "executor")] +
+          ["cfg-retry-ma0", "cfg-retry-ma1", "cfg-retry-man", "cfg-retry-max-attempts-fn", "cfg-retry-zero-backoff", "cfg-retry-predicate-all",
+           "cfg-retry-predicate-none", "cfg-retry-predicate-e2", "cfg-retry-no-retries-on-retryable-error", "cfg-retry-attempts-exhausted-last-error"] +
+          ["cfg-fallback-%s-%s" % (st, x) for st in ("value", "valuefn", "fromerr", "fromreq", "service", "exc") for x in ("success", "handled", "rejected")] +
+          ["cfg-fallback-predicate-first", "cfg-fallback-no-predicate", "cfg-hedge-n0", "cfg-hedge-n1", "cfg-hedge-nn", "cfg-hedge-delay-zero",
+           "cfg-hedge-delay-max", "cfg-hedge-delay-ms", "cfg-hedge-no-room-answered", "cfg-timelimiter-max", "cfg-timelimiter-huge",
+           "cfg-bulkhead-one-slot-waits", "cfg-cache-one-entry", "cfg-cache-ttl-0", "cfg-cache-ttl-max", "cfg-ratelimiter-limit-reached-not-exceeded",
+           "cfg-circuit-cannot-trip", "cfg-circuit-cannot-trip-failing-calls", "cfg-adaptive-fixed-limit", "cfg-chaos-no-error-fn",
+           "cfg-chaos-error-fn-first", "cfg-chaos-latency-bounds", "cfg-reconnect-no-policy", "cfg-reconnect-max-attempts-0",
+           "cfg-reconnect-no-retry", "cfg-reconnect-connection-failure-predicted", "cfg-executor-handle"])
 
 LEVEL_NOTE = ("Trusted: Lean kernel; the transcription of each layer's call path as a transducer between boundary event streams in "
               "TR.Model.Stack (validated only by the sampled correspondence check); tower's BoxCloneService / MapErr adapters and the Tap "
@@ -1191,12 +1775,16 @@ LEVEL_NOTE = ("Trusted: Lean kernel; the transcription of each layer's call path
               "listener panic is observed, not modelled; the harness (virtual clock, manual poller) and the python monitors.")
 
 def canon_boundary(lines):
-    """what the Lean stack model reproduces: every boundary event, plus its own verdicts"""
+    """what the Lean stack model reproduces: every boundary event, plus its own verdicts, plus the answer of every request
+    (`result c …`: the model driver prints the answer `TR.Stack.denote` predicts from the layers' configurations and the
+    request's scripted outcomes wherever it predicts one, and repeats the observed answer where it does not)"""
     out = []
     for l in lines:
         w = l.split()
         if len(w) >= 2 and (w[1].startswith("b") and w[1][1:].isdigit() or w[1] in ("not-allowed", "contract-violated")):
             out.append(l)
+        elif len(w) >= 4 and w[1] == "result":
+            out.append(" ".join(w[:3]) + " " + "_".join(w[3:]))
     return out
 
 
@@ -1239,7 +1827,16 @@ SPECS = {
                 "fail-fast or waiting) with sequential requests that use the window up, are rejected, and follow after 0-3 refresh periods, over pending / "
                 "failing readiness polls and reserving inner services (a rejection needs `limit` permits handed out within the window span); reconnect "
                 "with BOTH callbacks registered, `on_state_change` panicking on a subset of the transitions (lpt) and / or a panicking `on_reconnect` "
-                "(lp bit 3), what each callback is told compared with the twin; distinct = distinct implementation log; "
+                "(lp bit 3), what each callback is told compared with the twin; every layer's OWN knobs at boundary values that must still leave "
+                "it out of the way of suitable requests (cf<j>=: retry max_attempts 0/1/n incl. max_attempts_fn, zero back-off, predicates all / "
+                "none / other kind, runs of retryable failures as long as the attempts; fallback all six strategies x predicate accepting / rejecting / "
+                "not set, either builder order; hedge max_hedged_attempts 0/1/n with zero / no / huge / Duration::MAX delay; time limits of hours and "
+                "Duration::MAX; one-slot bulkhead that waits; one-entry cache with TTL 0 / 1 ms / MAX; a rate limit the case just reaches; circuit-breaker "
+                "thresholds the case cannot reach; adaptive limit with min = max; chaos rates exactly 0 with / without error_fn; reconnect without policy / "
+                "max_attempts 0 / no retry / unlimited; executor on an explicit handle) — the answer and the number of inner calls of every request "
+                "whose fate is determined by configuration + scripted outcomes are predicted, by the Lean model (`denote`, compared line by line) and "
+                "independently by the monitor; the answer of every call future at every boundary is logged (`ret`) and replayed through the per-layer "
+                "acceptor of answers; distinct = distinct implementation log; "
                 "non-trivial = a stack of >= 2 layers or a retry/hedge/readiness-pending/readiness-error/held-instance/listener-panic event",
         "trusted": ["transcription of the layers' call paths in TR.Model.Stack (sampled by the correspondence check)",
                     "harness: Tap at every boundary, strict inner service, twin stack, clock_gettime interposition, manual poller", "python monitors"],
@@ -1265,7 +1862,17 @@ SPECS = {
                       "rejected itself included) it needs a new inner poll - what a layer believes about its own window is no substitute. "
                       "{every_callback_told,shared_guard_stops_at_first_panic,shared_guard_violates}: with one unwind guard per callback every callback that a "
                       "moment of the call path is reported to is told, for any callbacks and any panicking subset; under a shared guard the first panic is the "
-                      "last invocation. The model is tied to the code by replaying the boundary events the real stacks produce (Tap at every boundary) through it: "
+                      "last invocation. TRANSPARENCY: TR.Stack.denote says what a stack of layers IN GIVEN CONFIGURATIONS makes of one request with given inner "
+                      "outcomes (answer + number of inner calls); {retry_without_retries_is_transparent,retry_attempts_bounded_last_answer,retry_exhausts_attempts,"
+                      "fallback_success_passes,fallback_rejected_error_passes_unchanged,fallback_accepted_error_gets_strategy,hedge_without_room_forwards_once,"
+                      "hedge_not_due_is_transparent,unreachable_limit_is_transparent,reconnect_without_reconnects_forwards_once} are the per-layer facts, "
+                      "untriggered_stack_is_transparent the induction over ANY list of layers: forwarded exactly once, that call's answer inside exactly the "
+                      "pass-through variants. Over the OBSERVED log with answer events (acceptor RSt, conditional on acceptance like the contract theorems): "
+                      "{layer_forwards_at_most_once,answers_never_outnumber_calls,layer_answer_made_of_inner_answer,passthrough_answer_is_inner_answer,"
+                      "retry_answer_is_an_attempts_answer,fallback_answer_rule} per layer and {stack_forwards_at_most_once,stack_answers_explained} by induction "
+                      "over the boundaries. {readiness_error_surfaces,readiness_error_not_invented,contract_with_error_surfacing}: a readiness error of a held "
+                      "inner instance must be handed up at once and is never invented (acceptor YSt refines LSt). ALL acceptor theorems are of the form "
+                      "'accepted => property': that the real layers' logs are accepted is what the correspondence check establishes. The model is tied to the code by replaying the boundary events the real stacks produce (Tap at every boundary) through it: "
                       "an event the idiom cannot perform is a disagreement. Exactly-once forwarding, result wrappers, readiness errors surfacing and the "
                       "twin-stack listener comparison (answers, listener counts, and the probe calls made by a re-entrant completion listener vs. right "
                       "after the step) are decided by implementation-side monitors (not theorems).",
